@@ -693,6 +693,34 @@ func (w *world) forgeries(n string, v int64, crafted map[string][2][]byte) []for
 			out = append(out, forgery{"forged.value.leaf-as-inner", c, cr[0], cr[1], false, [][]byte{cr[1]}})
 		}
 	}
+	// FG6: the store is empty at this version (root hash nil): structurally invalid range proofs, on
+	// which the root computation fails, carrying a leaf with a key and value of our choice.
+	if len(ks) == 0 {
+		q := w.query(n, v, []byte("a"))
+		if q.status == "ok" && len(q.ops) == 2 && q.ops[1].typ == "m" {
+			fkey := []byte("forged-key")
+			leaf := iavl.ProofLeafNode{Key: fkey, ValueHash: sha(fval), Version: 1}
+			leaf2 := iavl.ProofLeafNode{Key: []byte("forged-key2"), ValueHash: sha(fval), Version: 1}
+			bad := map[string]*iavl.RangeProof{
+				"node-without-child-hash": {LeftPath: iavl.PathToLeaf{{Height: 1, Size: 2, Version: 1}}, Leaves: []iavl.ProofLeafNode{leaf}},
+				"node-height-zero":        {LeftPath: iavl.PathToLeaf{{Height: 0, Size: 1, Version: 1, Left: junk32(5)}}, Leaves: []iavl.ProofLeafNode{leaf}},
+				"node-both-hashes":        {LeftPath: iavl.PathToLeaf{{Height: 1, Size: 2, Version: 1, Left: junk32(5), Right: junk32(6)}}, Leaves: []iavl.ProofLeafNode{leaf}},
+				"inner-leaves-mismatch":   {InnerNodes: []iavl.PathToLeaf{{}}, Leaves: []iavl.ProofLeafNode{leaf}},
+				"left-over-leaves":        {InnerNodes: []iavl.PathToLeaf{{}}, Leaves: []iavl.ProofLeafNode{leaf, leaf2}},
+				"no-leaves":               {},
+			}
+			var names []string
+			for k := range bad {
+				names = append(names, k)
+			}
+			sort.Strings(names)
+			for _, k := range names {
+				c := cpOps(q.ops)
+				c[0] = op{typ: "v", key: fkey, rp: bad[k]}
+				out = append(out, forgery{"forged.empty-store." + k, c, fkey, fval, false, [][]byte{fval}})
+			}
+		}
+	}
 	// FG5: a one-leaf tree of our own, announced under the store's name *before* the real StoreInfo.
 	if len(ks) > 0 {
 		ops := w.existence(n, v, []byte(ks[0]))
@@ -809,8 +837,16 @@ var valU = [][]byte{[]byte("1"), []byte("22"), {}, {0}, []byte("value-3"), {0xff
 func history(r *gen.R, t *gen.Trace, budget, maxMut int, canned bool) {
 	start := t.Lines
 	order := []string{"acc", "pos"}
+	if canned {
+		// plus a store that is never written and one that is emptied again
+		order = []string{"acc", "pos", "emp", "was"}
+	}
 	w := newWorld(t, order)
-	t.Line("open", false, "open %s => -", strings.Join([]string{hx([]byte("acc")), hx([]byte("pos"))}, ","))
+	var onames []string
+	for _, n := range order {
+		onames = append(onames, hx([]byte(n)))
+	}
+	t.Line("open", false, "open %s => -", strings.Join(onames, ","))
 	nk := 3 + r.Intn(len(keyU)-2)
 	keys := keyU[:nk]
 	if r.Chance(1, 3) {
@@ -834,6 +870,11 @@ func history(r *gen.R, t *gen.Trace, budget, maxMut int, canned bool) {
 		}
 		_ = w.rs.GetKVStore(w.keys["pos"]).Set([]byte("x"), []byte("1"))
 		w.live["pos"]["x"] = []byte("1")
+		_ = w.rs.GetKVStore(w.keys["was"]).Set([]byte("w"), []byte("1"))
+		w.live["was"]["w"] = []byte("1")
+		w.commit()
+		_ = w.rs.GetKVStore(w.keys["was"]).Delete([]byte("w"))
+		delete(w.live["was"], "w")
 		latest = w.commit()
 	}
 	for b := 0; b < blocks; b++ {
@@ -883,7 +924,9 @@ func history(r *gen.R, t *gen.Trace, budget, maxMut int, canned bool) {
 	}
 	// choose the versions to examine: the latest and one older
 	vs := []int64{latest}
-	if latest > 1 {
+	if canned {
+		budget = 1 << 30 // the fixed history is always examined completely (at its latest version)
+	} else if latest > 1 {
 		vs = append(vs, 1+int64(r.Intn(int(latest-1))))
 	}
 	for _, v := range vs {
@@ -894,6 +937,9 @@ func history(r *gen.R, t *gen.Trace, budget, maxMut int, canned bool) {
 			w.dumpTree(n, v)
 			probes := append([][]byte{}, keyU...)
 			probes = append(probes, []byte("e"), []byte("aaa"), []byte{0, 0})
+			if len(w.hist[v][n]) == 0 {
+				probes = probes[:3] // an empty store: a few keys are enough
+			}
 			for _, k := range probes {
 				q := w.query(n, v, k)
 				want, present := w.hist[v][n][string(k)]
